@@ -153,6 +153,9 @@ enum Op {
     SearchF { q: Vec<i64>, k: usize, strat: Strat, os: usize, f: F },
     CSearch { c: String, q: Vec<i64>, k: usize },
     CSearchF { c: String, q: Vec<i64>, k: usize, strat: Strat, os: usize, f: F },
+    /// harness-internal (never sent to the model): `invalidate_hnsw_cache`, used only to confirm
+    /// that a violation is caused by a stale cache before charging it to a mutation
+    Invalidate { c: Option<String> },
 }
 
 fn ints(v: &[i64]) -> String {
@@ -198,6 +201,7 @@ impl Op {
             Op::SearchF { q, k, strat, os, f } => format!("searchf {} {k} {} {os} {}", ints(q), strat.name(), f.rpn()),
             Op::CSearch { c, q, k } => format!("csearch {c} {} {k}", ints(q)),
             Op::CSearchF { c, q, k, strat, os, f } => format!("csearchf {c} {} {k} {} {os} {}", ints(q), strat.name(), f.rpn()),
+            Op::Invalidate { .. } => "noop".into(),
         }
     }
     fn tag(&self) -> &'static str {
@@ -220,6 +224,7 @@ impl Op {
             Op::SearchF { .. } => "search_similar_filtered",
             Op::CSearch { .. } => "search_in_collection",
             Op::CSearchF { .. } => "search_filtered_in_collection",
+            Op::Invalidate { .. } => "invalidate_hnsw_cache",
         }
     }
     fn is_mutation(&self) -> bool {
@@ -586,6 +591,23 @@ impl Runner {
                     Obs::Plain(format!("err {}", verr(&e)))
                 }
             },
+            Op::Invalidate { c } => {
+                match c {
+                    None => {
+                        self.eng.invalidate_hnsw_cache("_default");
+                        self.dflt.built = false;
+                        self.dflt.muts.clear();
+                    }
+                    Some(c) => {
+                        self.eng.invalidate_hnsw_cache(c);
+                        if let Some(sp) = self.named.get_mut(c) {
+                            sp.built = false;
+                            sp.muts.clear();
+                        }
+                    }
+                }
+                Obs::Plain("ok".into())
+            }
             Op::Search { q, k } => {
                 let qf = f32s(q);
                 let ann = ann_keys(&self.dflt, &qf, *k);
@@ -1190,12 +1212,24 @@ fn classify(ops: &[Op], at: usize, site: &str, kind: &str) -> String {
     if let Some(b) = last_build {
         if !matches!(ops[at], Op::SearchM { .. }) {
             if let Some(mu) = (b + 1..at).find(|i| ops[*i].is_mutation() && space_of(&ops[*i]) == sp) {
-                return format!("vector_engine.{}/stale_hnsw_cache", ops[mu].tag());
+                // confirm by experiment: with an explicit invalidation right after that mutation the
+                // violation must be gone (3 tries: tie order in the store is not deterministic)
+                let mut t: Vec<Op> = ops[..=mu].to_vec();
+                t.push(Op::Invalidate { c: sp.as_ref().and_then(|s| s.strip_prefix("c:").map(|x| x.to_string())) });
+                t.extend_from_slice(&ops[mu + 1..=at]);
+                let gone = (0..3).all(|_| !replay_kinds(&t).iter().any(|(i, _, k)| *i == t.len() - 1 && *k == kind));
+                if gone {
+                    return format!("vector_engine.{}/stale_hnsw_cache", ops[mu].tag());
+                }
             }
-            if kind == "panic" || kind == "wrong_dimension" {
+            let live = !(b + 1..at).any(|i| ops[i].is_mutation() && space_of(&ops[i]) == sp);
+            if live && (kind == "panic" || kind == "wrong_dimension") {
                 return "vector_engine.hnsw_cache/query_dimension_not_checked".to_string();
             }
-            return format!("vector_engine.{fn_name}/with_cached_index:{kind}");
+            // a post-filter miss does not need the index: fall through to the generic class
+            if live && kind != "missed_match" && kind != "not_topk" {
+                return format!("vector_engine.{fn_name}/with_cached_index:{kind}");
+            }
         }
     }
     let kind = if kind == "missed_match" || kind == "not_topk" { "not_topk" } else { kind };
